@@ -96,7 +96,7 @@ def run(prop, tier):
     rep = Report(prop, tier, level="fault_enumeration")
     quick = tier == "quick"
     with Scratch(prop) as wd:
-        mc = tlc.model_check("MCFsWrite", "FsWrite_small.cfg", wd, timeout=280 if quick else 1800)
+        mc = tlc.model_check("MCFsWrite", "FsWrite_small.cfg", wd, timeout=600 if quick else 3600)
         rep.add_tlc(mc, "exhaustive: FsWrite.tla (every crash point / error x follow-up calls) satisfies CrashSafe")
         common.tick("model check done")
 
